@@ -196,11 +196,20 @@ def unknown_record_strategy(numbers: List[int]):
     # non-minimal (padded) varints in the tag (<= 5 bytes: it is a 32-bit quantity), the length and the value: a
     # record that is kept "byte for byte" must come back exactly as it arrived
     pads = st.tuples(st.sampled_from([0, 0, 0, 3, 5]), st.sampled_from([0, 0, 0, 2, 5]), st.sampled_from([0, 0, 0, 10]))
-    return st.tuples(st.one_of(varint, f64, f32, ln), pads).map(
+    plain = st.tuples(st.one_of(varint, f64, f32, ln), pads).map(
         lambda t: {"n": t[0][0], "wt": t[0][1], "p": t[0][2], **({"tp": t[1][0], "lp": t[1][1], "vp": t[1][2]} if any(t[1]) else {})})
+    # a well-formed (proto2) group: start marker, content, end marker; nested `depth` levels deep (parsers accept up to
+    # 100 levels); an unknown group is one unknown field and is kept as a whole
+    group = st.tuples(num, st.sampled_from([1, 1, 2, 3, 10, 63, 64, 65, 66, 90]), nested).map(lambda t: {"n": t[0], "wt": 3, "depth": t[1], "p": t[2]})
+    return st.one_of(plain, plain, plain, plain, plain, plain, group)
 
 
 def unknown_to_record(u: Dict[str, Any]) -> wire.Record:
+    if u["wt"] == 3:
+        raw = u["p"]
+        for _ in range(u.get("depth", 1)):
+            raw = wire.tag(u["n"], 3) + raw + wire.tag(u["n"], 4)
+        return wire.Record(u["n"], 3, None, raw)
     return wire.make_record(u["n"], u["wt"], u["p"], tag_pad=u.get("tp", 0), len_pad=u.get("lp", 0), val_pad=u.get("vp", 0))
 
 
